@@ -1,5 +1,7 @@
 package jd
 
+import "encoding/json"
+
 // DiffElement (hunk) is a way in which two JsonNodes differ at a given
 // Path. OldValues can be removed and NewValues can be added. The exact
 // Path and how to interpret the intervening structure is determined by a
@@ -56,4 +58,32 @@ type patchElement struct {
 	Op    string      `json:"op"`   // "add", "test" or "remove"
 	Path  string      `json:"path"` // JSON Pointer (RFC 6901)
 	Value interface{} `json:"value"`
+}
+
+// UnmarshalJSON reads the members "op", "path" and "value" by their exact
+// names. Members not defined for the operation are ignored (RFC 6902,
+// section 4), also when they differ from a defined one only in case,
+// which encoding/json would take for the same field.
+func (e *patchElement) UnmarshalJSON(b []byte) error {
+	var members map[string]json.RawMessage
+	if err := json.Unmarshal(b, &members); err != nil {
+		return err
+	}
+	*e = patchElement{}
+	if raw, ok := members["op"]; ok {
+		if err := json.Unmarshal(raw, &e.Op); err != nil {
+			return err
+		}
+	}
+	if raw, ok := members["path"]; ok {
+		if err := json.Unmarshal(raw, &e.Path); err != nil {
+			return err
+		}
+	}
+	if raw, ok := members["value"]; ok {
+		if err := json.Unmarshal(raw, &e.Value); err != nil {
+			return err
+		}
+	}
+	return nil
 }
